@@ -21,7 +21,7 @@ import BioCantor.Gen.Tables
 import BioCantor.Spec.Qualifiers
 namespace BioCantor.Model.Qual
 open BioCantor
-open BioCantor.Spec.Qual (Str QDict Kind Feat Group strLe strLt)
+open BioCantor.Spec.Qual (Str QDict Kind Feat Group strLe strLt IvKind)
 
 /-- Internal errors of the Python code that the shared `Err` type deliberately does not contain, plus the one
     documented refusal of the grouping (`GenBankLocusTagError`). -/
@@ -193,6 +193,49 @@ def sortStrs (l : List Str) : List Str := l.mergeSort strLe
 
 def mergeQualifiers (a b : QDict) : QDict :=
   ((a ++ b).foldl (fun m e => dictUpdate m e.1 e.2) []).map fun e => (e.1, sortStrs e.2)
+
+/-! ### AbstractFeatureInterval._merge_qualifiers and export_qualifiers (gene/interval.py, feature.py, transcript.py, cds.py) -/
+
+/-- `_merge_qualifiers(other_qualifiers)`:
+    `merged = {key: set(vals) for key, vals in self.qualifiers.items()}`; `if other_qualifiers:` (None and `{}` are
+    falsy) `for key, vals in other.items(): if key not in merged: merged[key] = set(); merged[key].update(vals)` -/
+def mergeIntervalQualifiers (own : QDict) (other : Option QDict) : QDict :=
+  let merged := own.map fun e => (e.1, setUpdate [] e.2)
+  match other with
+  | none => merged
+  | some o => if o.isEmpty then merged else o.foldl (fun m e => dictUpdate m e.1 e.2) merged
+
+/-- the enum members whose `.value` keys the identifiers of each class (looked up in the GENERATED BioCantorQualifiers) -/
+def exportMemberNames : IvKind → List Str
+  | .feature => ["FEATURE_SYMBOL".toList, "FEATURE_ID".toList]
+  | .transcript => ["TRANSCRIPT_ID".toList, "TRANSCRIPT_NAME".toList, "TRANSCRIPT_TYPE".toList, "PROTEIN_ID".toList]
+  | .cds => ["PROTEIN_ID".toList, "PRODUCT".toList]
+
+/-- `BioCantorQualifiers.X.value` for every member used; `none` = AttributeError (a member is missing) -/
+def exportMemberKeys (k : IvKind) : Option (List Str) :=
+  (exportMemberNames k).mapM fun n => Gen.gff3_BioCantorQualifiers.lookup n
+
+/-- the values paired with the keys: `self.transcript_type.name if self.transcript_type else UNKNOWN_BIOTYPE` -/
+def exportValues (k : IvKind) (attrs : List (Option Str)) : List (Option Str) :=
+  match k, attrs with
+  | .transcript, a :: b :: none :: rest => a :: b :: some Gen.biotype_UNKNOWN_BIOTYPE :: rest
+  | _, l => l
+
+/-- `for key, val in [...]: if not val: continue; if key not in q: q[key] = set(); q[key].add(val)` -/
+def addIdentifiers (q : QDict) (pairs : List (Str × Option Str)) : QDict :=
+  pairs.foldl (fun m p =>
+    match p.2 with
+    | some v => if v.isEmpty then m else dictUpdate m p.1 [v]
+    | none => m) q
+
+/-- `export_qualifiers(parent_qualifiers)` of FeatureInterval (without feature types) / TranscriptInterval /
+    CDSInterval; value sets reported sorted -/
+def exportQualifiers (k : IvKind) (own : QDict) (parent : Option QDict) (attrs : List (Option Str)) : Option QDict :=
+  match exportMemberKeys k with
+  | none => none
+  | some keys =>
+    some ((addIdentifiers (mergeIntervalQualifiers own parent) (keys.zip (exportValues k attrs))).map
+      fun e => (e.1, sortStrs e.2))
 
 /-! ### filter_and_sort_qualifiers -/
 
